@@ -29,7 +29,7 @@ func writerObs(g XZCfg, run XZRun, s ref.XZStream) map[string]any {
 
 // C02: everything the writer emits is a valid .xz file.
 func C02(c *hx.Ctx) {
-	c.Rule = "the case space of C01 with a different seed stream; every emitted stream is parsed and decoded by the independent reference (and xz-utils when installed), its layout is judged by TLC against XzFormat.WriterStreamOk (header/footer/index/backward/padding/check consistency, dictionary code, block sizes, distances <= declared dictionary, chunk limits); non-trivial = multi-block or multi-chunk stream"
+	c.Rule = "the case space of C01 with a different seed stream; every emitted stream is parsed and decoded by the independent reference (and xz-utils when installed), its layout is judged by TLC against XzFormat.WriterStreamOk (header/footer/index/backward/padding/check consistency, dictionary code, block sizes, distances <= declared dictionary, chunk limits); non-trivial = multi-block or multi-chunk stream; plus TLC validation (TraceLzma) of the operations of sampled emitted blocks with the window bounded by the declared dictionary size"
 	c.Assumptions = []string{"TLC (XzObs/XzFormat)", "internal/ref parser+decoder (independent of /repo)", "xz-utils only as an optional second judge"}
 	cases := xzCases(c, c.Seed+7777)
 	if len(cases) == 0 {
